@@ -300,6 +300,10 @@ def finish(res, tier, seed, t0):
         else:
             unknown.append(v)
     lines = []
+    if os.environ.get('VERIF_VERBOSE'):
+        for v in unknown:
+            print('UNKNOWN', res.viol_count.get((v.get('kind'), v.get('sig')), 1), v.get('kind'), '|', v.get('sig'), '|',
+                  repr(v.get('text'))[:90], '|', str(v.get('detail'))[:int(os.environ.get('VERIF_VERBOSE'))], '|', v.get('opts', ''))
     for fid, (f, n, v) in known_hits.items():
         lines.append(f"KNOWN-FINDING: property={res.prop} {fid} {f.get('what', '')} "
                      f"[{n} cases, e.g. {json.dumps(jsonable(v.get('text', v.get('witness', ''))))[:100]}]")
